@@ -144,6 +144,10 @@ pub fn install_panic_hook() {
 }
 
 pub const DEFAULT_BUDGET: u64 = 1 << 40;
+/// callback budget of the harness's own auxiliary library calls (sweeps, held-handle checks,
+/// twin calls): far above anything a terminating call needs, small enough that a loop over user
+/// code that never ends is reported within a fraction of a second
+pub const INTERNAL_BUDGET: u64 = 20_000_000;
 
 /// Run one library call with the instrumentation armed. Returns the result, the number of user
 /// callbacks the call made and the C20 log.
